@@ -1,0 +1,9 @@
+//go:build verif
+
+package server
+
+// VerifCloseListener stops accepting new RESP connections and closes the existing ones while the
+// member stays in the member list: for the other members this node is an unreachable peer.
+func (s *Server) VerifCloseListener() error {
+	return s.server.Close()
+}
